@@ -111,3 +111,20 @@ VARIANTS += [
          old='        return self._worker_id_prefix + str(os.getpid()) + "-" + str(threading.get_ident())\n',
          new='        pid = os.getpid()\n        return f"{self._worker_id_prefix}{pid}-{threading.get_ident()}"\n'),
 ]
+
+IM4 = "optuna/storages/_in_memory.py"
+CB4 = "optuna/storages/_callbacks.py"
+VARIANTS += [
+    dict(id="c04-inmem-guard-before-lock", prop="C04", file=IM4, expect="R04.1",
+         old="        with self._lock:\n            trial = copy.copy(self._get_trial(trial_id))\n            self.check_trial_is_updatable(trial_id, trial.state)\n\n            if state == TrialState.RUNNING and trial.state != TrialState.WAITING:\n                return False\n\n            trial.state = state\n",
+         new="        trial = self.get_trial(trial_id)\n        self.check_trial_is_updatable(trial_id, trial.state)\n\n        if state == TrialState.RUNNING and trial.state != TrialState.WAITING:\n            return False\n\n        with self._lock:\n            trial = copy.copy(self._get_trial(trial_id))\n            trial.state = state\n"),
+    dict(id="c04-retry-overwrites-fixed-params", prop="C04", file=CB4, expect="R04.6",
+         old="        system_attrs[\"retry_history\"].append(trial.number)\n",
+         new="        system_attrs[\"fixed_params\"] = dict(trial.params)\n        system_attrs[\"retry_history\"].append(trial.number)\n"),
+    dict(id="c04-retry-drops-system-attrs", prop="C04", file=CB4, expect="R04.6",
+         old="            \"retry_history\": [],\n            **trial.system_attrs,\n",
+         new="            \"retry_history\": list(trial.system_attrs.get(\"retry_history\", [])),\n"),
+    dict(id="c04-neutral-retry-history-local", prop="C04", file=CB4, expect=None,
+         old="        system_attrs[\"retry_history\"].append(trial.number)\n        if self._max_retry is not None:\n            if self._max_retry < len(system_attrs[\"retry_history\"]):\n                return\n",
+         new="        retry_history = system_attrs[\"retry_history\"]\n        retry_history.append(trial.number)\n        if self._max_retry is not None and self._max_retry < len(retry_history):\n            return\n"),
+]
